@@ -312,7 +312,12 @@ func genManyLeaves(rng *rand.Rand, c *regCase, flame bool) {
 		c.Steps = append(c.Steps, st)
 	}
 	add("/api/v1", "many leaves")
-	for i, n := 0, 30+rng.Intn(16); i < n; i++ {
+	n := 30 + rng.Intn(16)
+	for i := 0; i < n; i++ {
+		if n%2 == 1 {
+			add(fmt.Sprintf("/api/v1/res%d/{id}", i), "many subtrees") // the same width one level up: subtrees instead of leaves
+			continue
+		}
 		add(fmt.Sprintf("/api/v1/res%d", i), "many leaves")
 	}
 	add("/api/v1/?status", "duplicate via short form")
@@ -409,7 +414,7 @@ func genRegCase(rng *rand.Rand) *regCase {
 }
 
 func runC08(r *core.Run) {
-	r.Rule("registration histories of 1-12 steps over a per-history segment pool: 2/3 well-formed derivations (all four kinds, optional/empty final segment, root, respelled blanks), 1/3 one-mutation ill-formed (one mutator per rejection category of the statement + byte edits + segments outside the four kinds); tree level (route.AddRoute) and Flame level (all nine methods, lower-case, `*`, unknown; Get() while AutoHead is on = GET then HEAD); modes restart/continue. Oracle: Accept() of the reference model applied to the accepted history per method; after the history every form of every accepted route is instantiated and must be dispatched as the model says (reachable subject only to priority); structural invariants via hook after every step. non-trivial = distinct histories in which a step's verdict depends on an earlier step (duplicate, short-form duplicate, occupied match-all position)")
+	r.Rule("registration histories of 1-12 steps over a per-history segment pool: 2/3 well-formed derivations (all four kinds, optional/empty final segment, root, respelled blanks), 1/3 one-mutation ill-formed (one mutator per rejection category of the statement + byte edits + segments outside the four kinds); tree level (route.AddRoute) and Flame level (all nine methods, lower-case, `*`, unknown; Get() while AutoHead is on = GET then HEAD); modes restart/continue. Oracle: Accept() of the reference model applied to the accepted history per method; after the history every form of every accepted route is instantiated and must be dispatched as the model says (reachable subject only to priority; in a third of the histories every route is also asked for right after it was accepted, while the application is still being assembled); structural invariants via hook after every step. non-trivial = distinct histories in which a step's verdict depends on an earlier step (duplicate, short-form duplicate, occupied match-all position)")
 	r.Assume("segments that are none of the four kinds are generated for totality only; their accept/reject verdict is not judged")
 	c08Canaries(r)
 	n := r.N(40000, 4000000)
@@ -493,6 +498,62 @@ func judgeRegCase(w *core.W, c *regCase) {
 	rebuild()
 	dependsOnHistory := false
 	afterRefusal := false
+	stepRng := rand.New(rand.NewSource(int64(core.Hash64("between", fmt.Sprint(len(c.Steps)), string(c.Steps[0].Route)))))
+	probe := func(a accStep, reps int, rng *rand.Rand, when string) bool {
+		for _, short := range []bool{false, true} {
+			if short && !a.ast.Segs[len(a.ast.Segs)-1].Optional {
+				continue
+			}
+			for rep := 0; rep < reps; rep++ {
+				path := "/" + strings.Join(gen.InstRoute(rng, a.ast, short), "/")
+				best, _ := model(a.method).Dispatch(path, nil)
+				var obs observed
+				if flame {
+					hit, seen, nf = -1, nil, false
+					rec := httptest.NewRecorder()
+					req := &http.Request{Method: a.method, URL: &url.URL{Path: path}, Header: http.Header{"X-Reach": {"v"}}} // satisfies the constraint some routes were given after registration
+					var pan interface{}
+					func() {
+						defer func() { pan = recover() }()
+						f.ServeHTTP(rec, req)
+					}()
+					if pan != nil {
+						w.Violate("late-failure", c, fmt.Sprintf("serving %s %q panicked after all registrations succeeded: %v", a.method, path, pan))
+						return false
+					}
+					if (hit >= 0) == nf {
+						w.Violate("chain-count", c, fmt.Sprintf("serving %s %q: route handler ran=%v and not-found ran=%v", a.method, path, hit >= 0, nf))
+						return false
+					}
+					obs = observed{found: hit >= 0, routeIdx: hit, params: seen, flame: true}
+					if seen != nil {
+						obs.routeText = seen["route"]
+					}
+				} else {
+					hit = -1
+					leaf, params, ok, pan := safeMatch(tree, path, nil)
+					if pan != nil {
+						w.Violate("late-failure", c, fmt.Sprintf("matching %q panicked after all registrations succeeded: %v", path, pan))
+						return false
+					}
+					if ok {
+						leaf.Handler()(nil, nil, params)
+						obs.routeText = leaf.Route()
+					}
+					obs.found, obs.routeIdx, obs.params = ok, hit, params
+				}
+				w.Count("reachability-dispatches")
+				if best != nil && best.Form.RouteIdx == a.idx {
+					w.Count("reachability:own-route-wins")
+				}
+				if msg := dispatchVerdict(best, obs); msg != "" {
+					w.Violate("reachability", c, fmt.Sprintf("instance %q of accepted route %s %q (mode %s, asked for %s): %s", path, a.method, a.txt, c.Mode, when, msg))
+					return false
+				}
+			}
+		}
+		return true
+	}
 
 	for i, st := range c.Steps {
 		txt := string(st.Route)
@@ -666,6 +727,16 @@ func judgeRegCase(w *core.W, c *regCase) {
 				model(p.m).Commit(i, mr, p.forms)
 				accepted = append(accepted, accStep{idx: i, method: p.m, txt: txt, ast: mr})
 			}
+			if len(c.Steps)%3 == 0 {
+				// a third of the histories: the route just accepted is asked for at once, while the application is still
+				// being assembled - and whatever that leaves behind must not stand in the way of a later registration
+				for _, p := range commits {
+					if !probe(accStep{idx: i, method: p.m, txt: txt, ast: mr}, 1, stepRng, fmt.Sprintf("right after step %d", i)) {
+						return
+					}
+				}
+				w.Count("reachability-probed-between-registrations")
+			}
 			countKinds(w, mr)
 		}
 		// --- structural invariants at the quiescent point after the step
@@ -689,57 +760,8 @@ func judgeRegCase(w *core.W, c *regCase) {
 	// dispatched exactly as the model says (that route or one the model ranks higher)
 	rng := rand.New(rand.NewSource(int64(core.Hash64(fmt.Sprint(len(c.Steps)), string(c.Steps[0].Route)))))
 	for _, a := range accepted {
-		for _, short := range []bool{false, true} {
-			if short && !a.ast.Segs[len(a.ast.Segs)-1].Optional {
-				continue
-			}
-			for rep := 0; rep < 2; rep++ {
-				path := "/" + strings.Join(gen.InstRoute(rng, a.ast, short), "/")
-				best, _ := model(a.method).Dispatch(path, nil)
-				var obs observed
-				if flame {
-					hit, seen, nf = -1, nil, false
-					rec := httptest.NewRecorder()
-					req := &http.Request{Method: a.method, URL: &url.URL{Path: path}, Header: http.Header{"X-Reach": {"v"}}} // satisfies the constraint some routes were given after registration
-					var pan interface{}
-					func() {
-						defer func() { pan = recover() }()
-						f.ServeHTTP(rec, req)
-					}()
-					if pan != nil {
-						w.Violate("late-failure", c, fmt.Sprintf("serving %s %q panicked after all registrations succeeded: %v", a.method, path, pan))
-						return
-					}
-					if (hit >= 0) == nf {
-						w.Violate("chain-count", c, fmt.Sprintf("serving %s %q: route handler ran=%v and not-found ran=%v", a.method, path, hit >= 0, nf))
-						return
-					}
-					obs = observed{found: hit >= 0, routeIdx: hit, params: seen, flame: true}
-					if seen != nil {
-						obs.routeText = seen["route"]
-					}
-				} else {
-					hit = -1
-					leaf, params, ok, pan := safeMatch(tree, path, nil)
-					if pan != nil {
-						w.Violate("late-failure", c, fmt.Sprintf("matching %q panicked after all registrations succeeded: %v", path, pan))
-						return
-					}
-					if ok {
-						leaf.Handler()(nil, nil, params)
-						obs.routeText = leaf.Route()
-					}
-					obs.found, obs.routeIdx, obs.params = ok, hit, params
-				}
-				w.Count("reachability-dispatches")
-				if best != nil && best.Form.RouteIdx == a.idx {
-					w.Count("reachability:own-route-wins")
-				}
-				if msg := dispatchVerdict(best, obs); msg != "" {
-					w.Violate("reachability", c, fmt.Sprintf("instance %q of accepted route %s %q (mode %s): %s", path, a.method, a.txt, c.Mode, msg))
-					return
-				}
-			}
+		if !probe(a, 2, rng, "after the last registration") {
+			return
 		}
 	}
 	if dependsOnHistory {
